@@ -26,7 +26,7 @@ theorem spec2_predBuiltin (cfg : CheckCfg) (c : SCfg) (cs : List OTy) (m mc : Me
     (hname : isPredBuiltin name = true)
     (iha : Spec2 E cfg c cs a)
     (ihb : ∀ coll, synth cfg cs a = some coll → Spec2 E cfg c (coll :: cs) b)
-    (ha : ∀ t, synth cfg cs a = some t → ∃ k, sliceElemKind t = some k)
+    (ha : ∀ t, synth cfg cs a = some t → ∃ Va, vtyOf t = some Va ∧ Va.isColl = true)
     (hb : ∀ coll bt, synth cfg cs a = some coll → synth cfg (coll :: cs) b = some bt → ScalarT bt) :
     Spec2 E cfg c cs (.builtin m name [a, .closure mc b]) := by
   intro τ V hs hV st hst
@@ -38,8 +38,8 @@ theorem spec2_predBuiltin (cfg : CheckCfg) (c : SCfg) (cs : List OTy) (m mc : Me
   | some coll =>
     rw [hsa] at hs
     simp only [] at hs
-    obtain ⟨k, hk⟩ := ha coll hsa
-    obtain ⟨harr, _⟩ := slice_type_facts hk
+    obtain ⟨Va, hk, hVa⟩ := ha coll hsa
+    have harr := coll_isArrayT hk hVa
     simp only [harr, Bool.not_true, Bool.false_eq_true, if_false] at hs
     cases hsb : synth cfg (coll :: cs) b with
     | none => rw [hsb] at hs; cases hs
@@ -60,7 +60,7 @@ theorem spec2_predBuiltin (cfg : CheckCfg) (c : SCfg) (cs : List OTy) (m mc : Me
       · simp only [hbool, Bool.not_true, Bool.false_eq_true, if_false] at hrule
         have hbk : OTy.kind (some bt) = .bool := (isBoolT_scalar hbs).1 hbool
         -- visit
-        obtain ⟨e1, _, ev1⟩ := iha coll (.sl k) hsa (vtyOf_slice_of hk) st hst
+        obtain ⟨e1, _, ev1⟩ := iha coll Va hsa hk st hst
         have hst1 := visit_colls cfg a st
         rcases hav : visit cfg a st with ⟨a', coll', st1⟩
         rw [hav] at e1 ev1 hst1
@@ -91,7 +91,7 @@ theorem spec2_predBuiltin (cfg : CheckCfg) (c : SCfg) (cs : List OTy) (m mc : Me
           show ResOK E isBoolVal (eval c ctx (.builtin _ "all" [a', .closure _ b']) s).1
           rw [eval_all]
           exact evalPredLoop_spec c a' _ _ _ _ (by intro v h; cases h) (by intro v h; cases h; exact ⟨_, rfl⟩) ⟨_, rfl⟩
-            hk ev1 evb ctx hctx s
+            hk hVa ev1 evb ctx hctx s
         · simp (config := {decide := true}) only [if_false] at hrule
           cases hrule
           have : V = .sc .bool := by
@@ -101,7 +101,7 @@ theorem spec2_predBuiltin (cfg : CheckCfg) (c : SCfg) (cs : List OTy) (m mc : Me
           show ResOK E isBoolVal (eval c ctx (.builtin _ "none" [a', .closure _ b']) s).1
           rw [eval_none]
           exact evalPredLoop_spec c a' _ _ _ _ (by intro v h; cases h; exact ⟨_, rfl⟩) (by intro v h; cases h) ⟨_, rfl⟩
-            hk ev1 evb ctx hctx s
+            hk hVa ev1 evb ctx hctx s
         · simp (config := {decide := true}) only [if_false] at hrule
           cases hrule
           have : V = .sc .bool := by
@@ -111,7 +111,7 @@ theorem spec2_predBuiltin (cfg : CheckCfg) (c : SCfg) (cs : List OTy) (m mc : Me
           show ResOK E isBoolVal (eval c ctx (.builtin _ "any" [a', .closure _ b']) s).1
           rw [eval_any]
           exact evalPredLoop_spec c a' _ _ _ _ (by intro v h; cases h; exact ⟨_, rfl⟩) (by intro v h; cases h) ⟨_, rfl⟩
-            hk ev1 evb ctx hctx s
+            hk hVa ev1 evb ctx hctx s
         · simp (config := {decide := true}) only [if_false] at hrule
           cases hrule
           have : V = .sc .bool := by
@@ -120,7 +120,7 @@ theorem spec2_predBuiltin (cfg : CheckCfg) (c : SCfg) (cs : List OTy) (m mc : Me
           subst this
           show ResOK E isBoolVal (eval c ctx (.builtin _ "one" [a', .closure _ b']) s).1
           rw [eval_one]
-          exact evalCountLoop_spec c a' _ true hk ev1 evb ctx hctx s
+          exact evalCountLoop_spec c a' _ true hk hVa ev1 evb ctx hctx s
         · simp (config := {decide := true}) only [if_true] at hrule
           cases hrule
           have : V = .sc (.num .int) := by
@@ -129,17 +129,17 @@ theorem spec2_predBuiltin (cfg : CheckCfg) (c : SCfg) (cs : List OTy) (m mc : Me
           subst this
           show ResOK E (fun v => ValOfK v (.num .int)) (eval c ctx (.builtin _ "count" [a', .closure _ b']) s).1
           rw [eval_count]
-          exact evalCountLoop_spec c a' _ false hk ev1 evb ctx hctx s
+          exact evalCountLoop_spec c a' _ false hk hVa ev1 evb ctx hctx s
       · simp only [hbool] at hrule
         simp at hrule
 
 /-! ### `filter` and `map` under the documented rule (`[]interface{}`) -/
 
-theorem rok_fetch (hi : E .index) {a b : Val} {k : RKind} {ki : Kind} (ha : ArrOf a k) (hb : NumOf b ki) :
-    ROK E (fun _ : Val => True) (fetchV a b false) := by
-  have h0 := fetchV_arr (E := E) hi ha hb
+theorem rok_fetch (hi : E .index) {tag : ElemT} {xs : List Val} {b : Val} {ki : Kind} (hb : NumOf b ki) :
+    ROK E (fun _ : Val => True) (fetchV (.arr tag xs) b false) := by
+  have h0 := fetchV_arr_gen (E := E) (tag := tag) (xs := xs) (fun _ => True) hi (fun _ _ => trivial) hb
   revert h0
-  generalize fetchV a b false = r
+  generalize fetchV (.arr tag xs) b false = r
   intro h0
   cases r with
   | ok v => trivial
@@ -171,7 +171,7 @@ theorem spec2_filterMap (hi : E .index) (hbud : E .budget) (cfg : CheckCfg) (c :
     (hdt : cfg.dt.staticSliceOf = false)
     (iha : Spec2 E cfg c cs a)
     (ihb : ∀ coll, synth cfg cs a = some coll → Spec2 E cfg c (coll :: cs) b)
-    (ha : ∀ t, synth cfg cs a = some t → ∃ k, sliceElemKind t = some k)
+    (ha : ∀ t, synth cfg cs a = some t → ∃ Va, vtyOf t = some Va ∧ Va.isColl = true)
     (hb : ∀ coll bt, synth cfg cs a = some coll → synth cfg (coll :: cs) b = some bt →
       (∃ Vb, vtyOf bt = some Vb) ∧ (name = "filter" → ScalarT bt)) :
     Spec2 E cfg c cs (.builtin m name [a, .closure mc b]) := by
@@ -184,8 +184,8 @@ theorem spec2_filterMap (hi : E .index) (hbud : E .budget) (cfg : CheckCfg) (c :
   | some coll =>
     rw [hsa] at hs
     simp only [] at hs
-    obtain ⟨k, hk⟩ := ha coll hsa
-    obtain ⟨harr, _⟩ := slice_type_facts hk
+    obtain ⟨Va, hk, hVa⟩ := ha coll hsa
+    have harr := coll_isArrayT hk hVa
     simp only [harr, Bool.not_true, Bool.false_eq_true, if_false] at hs
     cases hsb : synth cfg (coll :: cs) b with
     | none => rw [hsb] at hs; cases hs
@@ -193,7 +193,7 @@ theorem spec2_filterMap (hi : E .index) (hbud : E .budget) (cfg : CheckCfg) (c :
       obtain ⟨⟨Vb, hVb⟩, hfs⟩ := hb coll bto hsa hsb
       have hbsome : ∃ bt, bto = some bt := by
         cases bto with
-        | none => simp [vtyOf, OTy.kind, RKind.isScalar, sliceElemKind, isAnySlice, isObjT, isMapAnyT, OTy.deref] at hVb
+        | none => simp [vtyOf, OTy.kind, RKind.isScalar, sliceElemKind, isAnySlice, sloElem, isObjT, isMapAnyT, OTy.deref] at hVb
         | some bt => exact ⟨bt, rfl⟩
       obtain ⟨bt, rfl⟩ := hbsome
       rw [hsb] at hs
@@ -224,7 +224,7 @@ theorem spec2_filterMap (hi : E .index) (hbud : E .budget) (cfg : CheckCfg) (c :
         rw [this] at hV; cases hV; rfl
       subst this
       -- visit
-      obtain ⟨e1, _, ev1⟩ := iha coll (.sl k) hsa (vtyOf_slice_of hk) st hst
+      obtain ⟨e1, _, ev1⟩ := iha coll Va hsa hk st hst
       have hst1 := visit_colls cfg a st
       rcases hav : visit cfg a st with ⟨a', coll', st1⟩
       rw [hav] at e1 ev1 hst1
@@ -243,11 +243,11 @@ theorem spec2_filterMap (hi : E .index) (hbud : E .budget) (cfg : CheckCfg) (c :
       intro ctx hctx
       have hX := evalOKV_smok ev1 ctx hctx
       -- the closure's body at an element of the collection
-      have hbody : ∀ (collv : Val), ArrOf collv k → ∀ i : Nat,
+      have hbody : ∀ (collv : Val), ValOfV collv Va → ∀ i : Nat,
           SMOK E (fun v => ValOfV v Vb) (eval c ((collv, (i : Int)) :: ctx) (.closure { mc with kd := OTy.kind (closureType bt) } b')) := by
         intro collv hcv i
         simp only [eval]
-        exact evalOKV_smok ev2 ((collv, (i : Int)) :: ctx) ⟨k, hk, hcv⟩
+        exact evalOKV_smok ev2 ((collv, (i : Int)) :: ctx) ⟨Va, hk, hVa, hcv⟩
       rcases hname with rfl | rfl
       · -- filter
         have hVbool : Vb = .sc .bool := by
@@ -259,8 +259,8 @@ theorem spec2_filterMap (hi : E .index) (hbud : E .budget) (cfg : CheckCfg) (c :
         simp (config := {decide := true}) only [eval, builtinNames, List.contains, List.elem, if_true, if_false]
         refine smok_bind hX ?_
         intro collv hcv
-        obtain ⟨et, xs, rfl, htag, hxs⟩ := hcv
-        have hcv : ArrOf (.arr et xs) k := ⟨et, xs, rfl, htag, hxs⟩
+        obtain ⟨et, xs, hshape⟩ := arr_of_collV hVa hcv
+        subst hshape
         refine smok_bind (Qa := fun _ => True) (smok_lift trivial) ?_
         intro n _
         refine smok_bind (smok_loopIdx _ ?_ _ _ _) ?_
@@ -278,7 +278,7 @@ theorem spec2_filterMap (hi : E .index) (hbud : E .budget) (cfg : CheckCfg) (c :
             revert hnum
             generalize Val.int Kind.int (i : Int) = bidx
             intro hnum
-            have hfetch := smok_lift (E := E) (rok_fetch (E := E) hi hcv hnum)
+            have hfetch := smok_lift (E := E) (rok_fetch (E := E) (tag := et) (xs := xs) hi hnum)
             exact smok_bind hfetch (fun el _ => smok_pure (Q := StepAny) trivial)
         · intro r hr
           cases r with
@@ -292,8 +292,8 @@ theorem spec2_filterMap (hi : E .index) (hbud : E .budget) (cfg : CheckCfg) (c :
         simp (config := {decide := true}) only [eval, builtinNames, List.contains, List.elem, if_true, if_false]
         refine smok_bind hX ?_
         intro collv hcv
-        obtain ⟨et, xs, rfl, htag, hxs⟩ := hcv
-        have hcv : ArrOf (.arr et xs) k := ⟨et, xs, rfl, htag, hxs⟩
+        obtain ⟨et, xs, hshape⟩ := arr_of_collV hVa hcv
+        subst hshape
         refine smok_bind (Qa := fun _ => True) (smok_lift trivial) ?_
         intro n _
         refine smok_bind (smok_loopIdx _ ?_ _ _ _) ?_
@@ -398,15 +398,31 @@ def inOK (l r : Option OTy) : Bool :=
 def idxAnyV : VTy → VTy → VTy → Bool
   | .anys, .sc (.num _), .any => true
   | .mapAny, .sc .string, .any => true
+  | .slo et, .sc (.num _), .obj et' => et == et'
   | _, _, _ => false
 
 theorem idxAnyV_cases {Vx Vi Vr : VTy} (h : idxAnyV Vx Vi Vr = true) :
-    (Vx = .anys ∧ (∃ k, Vi = .sc (.num k)) ∧ Vr = .any) ∨ (Vx = .mapAny ∧ Vi = .sc .string ∧ Vr = .any) := by
+    (Vx = .anys ∧ (∃ k, Vi = .sc (.num k)) ∧ Vr = .any) ∨ (Vx = .mapAny ∧ Vi = .sc .string ∧ Vr = .any) ∨
+    (∃ et, Vx = .slo et ∧ (∃ k, Vi = .sc (.num k)) ∧ Vr = .obj et) := by
   unfold idxAnyV at h
   split at h
   · exact Or.inl ⟨rfl, ⟨_, rfl⟩, rfl⟩
-  · exact Or.inr ⟨rfl, rfl, rfl⟩
+  · exact Or.inr (Or.inl ⟨rfl, rfl, rfl⟩)
+  · have := eq_of_beq h
+    subst this
+    exact Or.inr (Or.inr ⟨_, rfl, ⟨_, rfl⟩, rfl⟩)
   · cases h
+
+theorem fetch_slo (hi : E .index) {a b : Val} {et : OTy} {ki : Kind} (ha : ValOfV a (.slo et)) (hb : NumOf b ki) :
+    ROK E (fun v => ValOfV v (.obj et)) (fetchV a b false) := by
+  obtain ⟨tag, xs, rfl, hall⟩ := ha
+  have h0 := fetchV_arr_gen (E := E) (tag := tag) (fun v => ∀ n, Conf n v et) hi hall hb
+  revert h0
+  generalize fetchV (.arr tag xs) b false = r
+  intro h0
+  cases r with
+  | ok v => exact h0
+  | error e => exact h0
 
 def idxAnyOK (x i r : Option OTy) : Bool :=
   match x, i, r with
@@ -426,6 +442,24 @@ def strOK (t : Option OTy) : Bool :=
   match t with
   | some τ => vtyOf τ == some (.sc .string)
   | none => false
+
+/-- a collection with typed elements: a slice of scalars or of structs -/
+def collOK (t : Option OTy) : Bool :=
+  match t with
+  | some τ =>
+    (match vtyOf τ with
+      | some V => V.isColl
+      | none => false)
+  | none => false
+
+theorem collOK_elim {o : Option OTy} (h : collOK o = true) :
+    ∀ t, o = some t → ∃ Va, vtyOf t = some Va ∧ Va.isColl = true := by
+  intro t ht
+  rw [ht] at h
+  simp only [collOK] at h
+  cases hv : vtyOf t with
+  | none => rw [hv] at h; cases h
+  | some V => rw [hv] at h; exact ⟨V, rfl, h⟩
 
 /-- a struct or pointer-to-struct type -/
 def objOK (t : Option OTy) : Bool :=
@@ -456,15 +490,15 @@ def typed2 (cfg : CheckCfg) : List OTy → Node → Bool
   | cs, .index m x i =>
     ((sliceOK (synth cfg cs x) && intOK (synth cfg cs i)) ||
       idxAnyOK (synth cfg cs x) (synth cfg cs i) (synth cfg cs (.index m x i))) && typed2 cfg cs x && typed2 cfg cs i
-  | cs, .slice _ x none none => sliceOK (synth cfg cs x) && typed2 cfg cs x
-  | cs, .slice _ x (some f) none => sliceOK (synth cfg cs x) && typed2 cfg cs x && intOK (synth cfg cs f) && typed2 cfg cs f
-  | cs, .slice _ x none (some t) => sliceOK (synth cfg cs x) && typed2 cfg cs x && intOK (synth cfg cs t) && typed2 cfg cs t
+  | cs, .slice _ x none none => collOK (synth cfg cs x) && typed2 cfg cs x
+  | cs, .slice _ x (some f) none => collOK (synth cfg cs x) && typed2 cfg cs x && intOK (synth cfg cs f) && typed2 cfg cs f
+  | cs, .slice _ x none (some t) => collOK (synth cfg cs x) && typed2 cfg cs x && intOK (synth cfg cs t) && typed2 cfg cs t
   | cs, .slice _ x (some f) (some t) =>
-    sliceOK (synth cfg cs x) && typed2 cfg cs x && intOK (synth cfg cs f) && typed2 cfg cs f &&
+    collOK (synth cfg cs x) && typed2 cfg cs x && intOK (synth cfg cs f) && typed2 cfg cs f &&
       intOK (synth cfg cs t) && typed2 cfg cs t
   | cs, .builtin _ _ [a] => lenOK (synth cfg cs a) && typed2 cfg cs a
   | cs, .builtin _ name [a, .closure _ b] =>
-    sliceOK (synth cfg cs a) && typed2 cfg cs a &&
+    collOK (synth cfg cs a) && typed2 cfg cs a &&
     -- `filter` / `map`: only under the documented rule (result `[]interface{}`); the code's `[]T` is the known finding
     (isPredBuiltin name || !cfg.dt.staticSliceOf) &&
     (match synth cfg cs a with
@@ -662,14 +696,15 @@ theorem frag2_sound (hd : E .divzero) (hi : E .index) (hbud : E .budget) (cfg : 
               cases hτ
               rw [hvr] at hV
               cases hV
-              rcases idxAnyV_cases hcase with ⟨rfl, ⟨k, rfl⟩, rfl⟩ | ⟨rfl, rfl, rfl⟩
+              rcases idxAnyV_cases hcase with ⟨rfl, ⟨k, rfl⟩, rfl⟩ | ⟨rfl, rfl, rfl⟩ | ⟨et, rfl, ⟨k, rfl⟩, rfl⟩
               · exact fetch_anys hi ha hb
               · exact fetch_mapAny false ha hb
+              · exact fetch_slo hi ha hb
   | .slice m x none none, cs, hf, ht => by
     simp only [inFrag2] at hf
     simp only [typed2, Bool.and_eq_true] at ht
     refine spec2_slice hi cfg c cs m x none none (frag2_sound hd hi hbud cfg c henv hdn fo hw hre hm x cs hf ht.2)
-      (fun n h => by cases h) (fun n h => by cases h) (sliceOK_elim ht.1)
+      (fun n h => by cases h) (fun n h => by cases h) (collOK_elim ht.1)
       (fun n it h => by cases h) (fun n it h => by cases h)
   | .slice m x (some f) none, cs, hf, ht => by
     simp only [inFrag2, Bool.and_eq_true] at hf
@@ -677,14 +712,14 @@ theorem frag2_sound (hd : E .divzero) (hi : E .index) (hbud : E .budget) (cfg : 
     obtain ⟨⟨⟨h1, h2⟩, h3⟩, h4⟩ := ht
     refine spec2_slice hi cfg c cs m x (some f) none (frag2_sound hd hi hbud cfg c henv hdn fo hw hre hm x cs hf.1 h2)
       (fun n h => by cases h; exact frag2_sound hd hi hbud cfg c henv hdn fo hw hre hm f cs hf.2 h4) (fun n h => by cases h)
-      (sliceOK_elim h1) (fun n it h => by cases h; exact intOK_elim h3 it) (fun n it h => by cases h)
+      (collOK_elim h1) (fun n it h => by cases h; exact intOK_elim h3 it) (fun n it h => by cases h)
   | .slice m x none (some t), cs, hf, ht => by
     simp only [inFrag2, Bool.and_eq_true] at hf
     simp only [typed2, Bool.and_eq_true] at ht
     obtain ⟨⟨⟨h1, h2⟩, h3⟩, h4⟩ := ht
     refine spec2_slice hi cfg c cs m x none (some t) (frag2_sound hd hi hbud cfg c henv hdn fo hw hre hm x cs hf.1 h2)
       (fun n h => by cases h) (fun n h => by cases h; exact frag2_sound hd hi hbud cfg c henv hdn fo hw hre hm t cs hf.2 h4)
-      (sliceOK_elim h1) (fun n it h => by cases h) (fun n it h => by cases h; exact intOK_elim h3 it)
+      (collOK_elim h1) (fun n it h => by cases h) (fun n it h => by cases h; exact intOK_elim h3 it)
   | .slice m x (some f) (some t), cs, hf, ht => by
     simp only [inFrag2, Bool.and_eq_true] at hf
     simp only [typed2, Bool.and_eq_true] at ht
@@ -692,7 +727,7 @@ theorem frag2_sound (hd : E .divzero) (hi : E .index) (hbud : E .budget) (cfg : 
     refine spec2_slice hi cfg c cs m x (some f) (some t) (frag2_sound hd hi hbud cfg c henv hdn fo hw hre hm x cs hf.1.1 h2)
       (fun n h => by cases h; exact frag2_sound hd hi hbud cfg c henv hdn fo hw hre hm f cs hf.1.2 h4)
       (fun n h => by cases h; exact frag2_sound hd hi hbud cfg c henv hdn fo hw hre hm t cs hf.2 h6)
-      (sliceOK_elim h1) (fun n it h => by cases h; exact intOK_elim h3 it) (fun n it h => by cases h; exact intOK_elim h5 it)
+      (collOK_elim h1) (fun n it h => by cases h; exact intOK_elim h3 it) (fun n it h => by cases h; exact intOK_elim h5 it)
   | .builtin m name [a], cs, hf, ht => by
     simp only [inFrag2, Bool.and_eq_true, beq_iff_eq] at hf
     simp only [typed2, Bool.and_eq_true] at ht
@@ -724,7 +759,7 @@ theorem frag2_sound (hd : E .divzero) (hi : E .index) (hbud : E .budget) (cfg : 
       simp only [Bool.and_eq_true] at hbody
       exact frag2_sound hd hi hbud cfg c henv hdn fo hw hre hm b (coll :: cs) hfb hbody.2
     by_cases hp : isPredBuiltin name = true
-    · refine spec2_predBuiltin cfg c cs m mc name a b hp iha ihb (sliceOK_elim hsa) ?_
+    · refine spec2_predBuiltin cfg c cs m mc name a b hp iha ihb (collOK_elim hsa) ?_
       intro coll bt hc hb'
       rw [hc] at hbody
       simp only [Bool.and_eq_true] at hbody
@@ -739,7 +774,7 @@ theorem frag2_sound (hd : E .divzero) (hi : E .index) (hbud : E .budget) (cfg : 
       have hdt' : cfg.dt.staticSliceOf = false := by
         simp only [hp, Bool.false_or] at hdt
         simpa using hdt
-      refine spec2_filterMap hi hbud cfg c cs m mc name a b hfm hdt' iha ihb (sliceOK_elim hsa) ?_
+      refine spec2_filterMap hi hbud cfg c cs m mc name a b hfm hdt' iha ihb (collOK_elim hsa) ?_
       intro coll bt hc hb'
       rw [hc] at hbody
       simp only [Bool.and_eq_true] at hbody
